@@ -376,6 +376,13 @@ def broadcast_indices(m, n):
             raise IndexError('shape mismatch: indexing arrays could not be broadcast together') from None
     return m, n
 
+def check_length(value, size):
+    # zip does not check lengths (TODO: with python 3.10, use the strict=True zip kwarg instead)
+    if len(value) != size:
+        raise ValueError(
+            f'shape mismatch: {len(value)} value(s) cannot be assigned to {size} element(s)'
+        )
+
 def unpack_index(index, ndim):
     indim = len(index)
     if indim == ndim:
@@ -878,7 +885,8 @@ class SparseArray:
                             if vd in (0, 1):
                                 for i in rows: i[:] = value
                             elif vd == 2:
-                                for i, j in zip(rows, value): i[:] = j # TODO: With python 3.10, use strict=True zip kwarg
+                                check_length(value, len(rows))
+                                for i, j in zip(rows, value): i[:] = j
                             else:
                                 raise IndexError(
                                     'cannot set an array element with a sequence'
@@ -902,9 +910,11 @@ class SparseArray:
                         if nisbool: n, = n.nonzero() if hasattr(n, 'nonzero') else np.nonzero(n)
                         for i in rows: i[n] = value
                     else:
+                        check_length(value, len(rows))
                         for i, j in zip(rows, value): i[n] = j
                 elif vd == 2:
-                    for i, j in zip(rows, value): i[n] = j # TODO: With python 3.10, use strict=True zip kwarg
+                    check_length(value, len(rows))
+                    for i, j in zip(rows, value): i[n] = j
                 else:
                     raise IndexError(
                         'cannot set an array element with a sequence'
@@ -922,7 +932,8 @@ class SparseArray:
                         else:
                             for i in m: rows[i][n] = value
                     elif vd == 2:
-                        for i, j in zip(m, value): rows[i][n] = j # TODO: With python 3.10, use strict=True zip kwarg
+                        check_length(value, len(m))
+                        for i, j in zip(m, value): rows[i][n] = j
                     else:
                         raise IndexError(
                             f'cannot broadcast {vd}-d array on to 1-d '
@@ -955,6 +966,7 @@ class SparseArray:
                                         dct = rows[i].dct
                                         if n in dct: del dct[n]
                             elif vd == 1:
+                                check_length(value, len(m))
                                 for i, k in zip(m, value): 
                                     dct = rows[i].dct
                                     if k: dct[n] = float(k)
@@ -974,6 +986,7 @@ class SparseArray:
                                         dct = rows[i].dct
                                         if j in dct: del dct[j]
                             elif vd == 1:
+                                check_length(value, len(m))
                                 for i, j, k in zip(m, n, value): 
                                     dct = rows[i].dct
                                     if k: dct[j] = float(k)
@@ -997,6 +1010,7 @@ class SparseArray:
                                 for i, j in zip(m, n): 
                                     rows[i].set.discard(j)
                         elif vd == 1:
+                            check_length(value, len(m))
                             for i, j, k in zip(m, n, value): 
                                 set = rows[i].set
                                 if k: set.add(j)
@@ -1027,7 +1041,8 @@ class SparseArray:
             if vd in (0, 1):
                 for i in rows: i[:] = value
             elif vd == 2:
-                for i, j in zip(rows, value): i[:] = j # TODO: With python 3.10, use strict=True zip kwarg
+                check_length(value, len(rows))
+                for i, j in zip(rows, value): i[:] = j
             else:
                 raise IndexError(
                     'cannot set an array element with a sequence'
@@ -1725,6 +1740,7 @@ class SparseVector:
         if ndim == 1:
             index = wrap_indices(index, self.size)
             if vd == 1:
+                check_length(value, len(index))
                 for i, j in zip(index, value): 
                     if j: dct[i] = float(j)
                     elif i in dct: del dct[i]
@@ -2786,6 +2802,7 @@ class SparseLogicalVector:
         if ndim == 1:
             index = wrap_indices(index, self.size)
             if vd == 1:
+                check_length(value, len(index))
                 for i, j in zip(index, value): 
                     if j: set.add(i)
                     else: set.discard(i)
